@@ -195,8 +195,9 @@ class Graph(object):
                 work.append(m)
         return seen
 
-    def path(self, starts, goal_bbs, cut_nodes=(), cut_edges=()):
-        """shortest path (list of bbs) from starts to any goal bb avoiding cuts, or None"""
+    def path(self, starts, goal_bbs, cut_nodes=(), cut_edges=(), goal_val=None):
+        """shortest path (list of bbs) from starts to any goal bb avoiding cuts, or None.
+        goal_val: optional predicate on the flag valuation of the goal node"""
         cut_nodes = set(cut_nodes)
         cut_edges = set(cut_edges)
         goal_bbs = set(goal_bbs)
@@ -209,7 +210,7 @@ class Graph(object):
             work.append(s)
         while work:
             n = work.popleft()
-            if self.bb(n) in goal_bbs:
+            if self.bb(n) in goal_bbs and (goal_val is None or goal_val(self.val(n))):
                 p = []
                 while n is not None:
                     p.append(self.bb(n))
@@ -222,10 +223,10 @@ class Graph(object):
                 work.append(m)
         return None
 
-    def must_pass(self, site_bb, cut_nodes=(), cut_edges=(), starts=None):
+    def must_pass(self, site_bb, cut_nodes=(), cut_edges=(), starts=None, goal_val=None):
         """True iff every path entry -> site_bb passes a cut node or a cut edge.
         Returns (ok, witness_path)"""
-        p = self.path(starts, [site_bb], cut_nodes, cut_edges)
+        p = self.path(starts, [site_bb], cut_nodes, cut_edges, goal_val)
         return (p is None), p
 
     def exits(self):
@@ -243,6 +244,7 @@ class Analyzer(object):
         self.defs = {}       # local -> list of (bb, idx or 'term', kind, place)
         self.mutborrows = {}  # local -> list of (bb, idx, tmp_local)
         self._memo = {}
+        self._cell_off = False
         self._index()
 
     def _index(self):
@@ -349,6 +351,8 @@ class Analyzer(object):
                         return v
         if e[0] == "phi":
             return self._phi([self._field(x, name) for x in e[1]])
+        if e[0] == "cell":
+            return ("cell", e[1], e[2], self._field(e[3], name))
         return ("field", e, name)
 
     def _phi(self, es):
@@ -391,8 +395,8 @@ class Analyzer(object):
 
     @staticmethod
     def strip_refs(e):
-        while e[0] in ("ref", "deref") or (e[0] == "mut"):
-            e = e[1]
+        while e[0] in ("ref", "deref", "mut", "cell"):
+            e = e[3] if e[0] == "cell" else e[1]
         return e
 
     def local_expr(self, local, point, depth, place=None):
@@ -444,6 +448,16 @@ class Analyzer(object):
                 return self._wrap_proj(self._param(local), proj)
             return self._wrap_proj(("unknown", "no reaching def _%d" % local), proj)
         e = self._phi(vals)
+        if len(self.defs.get(local, [])) > 1 and self.body.local_name(local) is not None and len(vals) >= 1 \
+                and not self._cell_off:
+            ndefs = 0
+            for (bb, idx, item) in self.defs.get(local, []):
+                dp = item.place.proj if hasattr(item, "place") and item.place is not None else (
+                    item.dest.proj if getattr(item, "dest", None) is not None else [])
+                if not dp or first_field is None or (isinstance(dp[0], dict) and dp[0].get("n") == first_field):
+                    ndefs += 1
+            if ndefs > 1:
+                e = ("cell", local, first_field, e)
         # mutation through &mut handed to calls between def and use
         muts = self._mut_calls(local, point)
         if muts:
@@ -611,7 +625,7 @@ class Analyzer(object):
             # follow reborrows one or two levels within the same block
             blk = body.blocks[bb]
             for s2 in blk.stmts[idx + 1:]:
-                if s2.kind == "assign" and s2.rv.k in ("ref", "rawptr", "use", "copyderef"):
+                if s2.kind == "assign" and s2.rv.k in ("ref", "rawptr", "use", "copyderef", "cast"):
                     src = s2.rv.place if s2.rv.place is not None else (s2.rv.ops[0].place if s2.rv.ops else None)
                     if src is not None and src.local in tmps and s2.place.is_local():
                         tmps.add(s2.place.local)
@@ -663,10 +677,15 @@ class Analyzer(object):
             labels.setdefault(t.otherwise, []).extend(rest if rest else ["otherwise"])
             return (e[1], labels)
         if dty == "bool":
+            neg = False
+            while e[0] == "unop" and e[1] == "Not":
+                e = e[2]
+                neg = not neg
+            T, F = ("false", "true") if neg else ("true", "false")
             for v, tb in t.arms:
-                labels.setdefault(tb, []).append("true" if v else "false")
+                labels.setdefault(tb, []).append(T if v else F)
             vals = [v for v, _ in t.arms]
-            labels.setdefault(t.otherwise, []).append("false" if 1 in vals else "true")
+            labels.setdefault(t.otherwise, []).append(F if 1 in vals else T)
             return (e, labels)
         for v, tb in t.arms:
             labels.setdefault(tb, []).append(v)
@@ -749,6 +768,8 @@ def strip(e, extra=()):
         k = e[0]
         if k in ("ref", "deref", "mut"):
             e = e[1]
+        elif k == "cell":
+            e = e[3]
         elif k == "call" and (is_transparent_call(e) or any(short(e[1]).endswith(x) for x in extra)) and e[3]:
             e = e[3][0]
         else:
@@ -780,7 +801,7 @@ def walk(e, fn, seen=None):
                                     walk(z, fn, seen)
 
 
-KINDS = {"param", "upvar", "env", "const", "fn", "static", "constitem", "call", "field", "deref", "ref",
+KINDS = {"cell", "param", "upvar", "env", "const", "fn", "static", "constitem", "call", "field", "deref", "ref",
          "variant", "agg", "binop", "unop", "cast", "discr", "await", "try", "select", "select_out", "phi",
          "update", "mut", "resume", "unknown", "index", "subslice", "repeat"}
 
@@ -825,6 +846,8 @@ def origins(e, through_calls=True, _depth=0):
             go(x[3], d + 1)
         elif k == "update":
             go(x[2], d + 1)
+        elif k == "cell":
+            go(x[3], d + 1)
         elif k == "cast":
             go(x[2], d + 1)
         elif k == "field":
@@ -920,4 +943,6 @@ def render(e, depth=0, maxdepth=8):
         return "mut[%s](%s)" % (",".join(x.split("::")[-1] for x in e[2]), r(e[1]))
     if k == "unknown":
         return "?(%s)" % e[1]
+    if k == "cell":
+        return "cell[_%s%s](%s)" % (e[1], "." + e[2] if e[2] else "", r(e[3]))
     return k
